@@ -241,7 +241,7 @@ _ALL = [PBM.reset, PBM.addSizeClasses, PBM.changeSizeClasses, PBM.adjustSizeClas
 _A = ["pre-state satisfies RI (uniform grid min + i*w, 0 < min, w > 0, populations >= 0); real arithmetic",
       "bin-count configurations are small concrete integers chosen so that every branch of adjustSizeClassesEuler is reachable"]
 _seqs3 = [list(s) for s in itertools.product(("add", "change", "adjust", "update", "backup", "revert", "reset"), repeat=3)
-          if not (s.count("change") > 1)]
+          if s.count("change") + s.count("adjust") <= 1]       # two re-meshes in one history are beyond the solver within the budget
 HARNESSES = [
     Harness("C08.op_reset", op_reset, functions=_ALL, assumptions=_A, params={"quick": [{"n": 3, "keep": False}, {"n": 3, "keep": True}], "thorough": [{"n": 5, "keep": False}, {"n": 5, "keep": True}]}),
     Harness("C08.op_add", op_add, functions=_ALL, assumptions=_A, params={"quick": [{"n": 2, "k": 1}, {"n": 3, "k": 2}], "thorough": [{"n": 4, "k": 3}, {"n": 5, "k": 1}]}),
@@ -266,5 +266,5 @@ HARNESSES = [
     Harness("C08.hist", hist, functions=_ALL, assumptions=["histories start from the constructor; operation arguments symbolic"],
             opts={"ob_timeout": 20.0, "max_paths": 300}, budget={"quick": 120.0, "thorough": 900.0}, validate=1,
             params={"quick": [{"seq": ["add", "adjust"]}, {"seq": ["update", "adjust", "add"]}, {"seq": ["backup", "add", "revert"]}],
-                    "thorough": [{"seq": s} for s in _seqs3[::7]]}),
+                    "thorough": [{"seq": s} for s in _seqs3[::5]]}),
 ]
